@@ -1103,7 +1103,10 @@ def _nas_cases(rnd, table, shapes, tier):
             # array-backed IEs are sized to the standard's maximum; most of them have a fixed length in TS 24.501, so only the
             # capacity is used unless the IE is known to be variable (5GMM capability 1..13, S-NSSAI 1|2|4|5|8, PDU address 5|9|13,
             # S1 UE network capability 2..13)
-            allowed = {16: [1, 2, 12, 13], 34: [1, 2, 4, 5, 8], 41: [5, 9, 13], 23: [2, 3, 13]}.get(iei, [cap])
+            # S1 UE network capability 2..13, 5GS network feature support 1..3, equivalent PLMNs 3..45 in threes, 5GSM capability 1..13,
+            # authentication response parameter 4..16)
+            allowed = {16: [1, 2, 12, 13], 34: [1, 2, 4, 5, 8], 41: [5, 9, 13], 23: [2, 3, 13], 0x21: [1, 2, 3], 0x4A: [3, 6, 42, 45],
+                       0x28: [1, 2, 12, 13], 0x2D: [4, 8, 16]}.get(iei, [cap])
             return allowed[mode % len(allowed)]
         if big:
             return [0, 1, 255, 256, 700, rnd.randrange(40)][mode % 6]
